@@ -245,7 +245,7 @@ impl ZmtpEngine {
           .map(|d| d.as_millis().min(u16::MAX as u128) as u16)
           .unwrap_or(0);
         let ping_msg = ZmtpCommand::create_ping(ttl_ms, &[]);
-        match encode_msg(ping_msg) {
+        match self.encode_data_phase_command(ping_msg) {
           Ok(data) => {
             out.net_actions.push(NetAction::Send {
               data,
@@ -746,7 +746,7 @@ impl ZmtpEngine {
         match ZmtpCommand::parse(&msg) {
           Some(ZmtpCommand::Ping(ctx)) => {
             let pong = ZmtpCommand::create_pong(&ctx);
-            match encode_msg(pong) {
+            match self.encode_data_phase_command(pong) {
               Ok(data) => out.net_actions.push(NetAction::Send {
                 data,
                 zc_eligible: false,
@@ -793,6 +793,15 @@ impl ZmtpEngine {
   }
 
   // --- Helpers ---
+
+  /// Encodes a command (PING/PONG) emitted in the Data phase through the *active* framer, so that
+  /// on an encrypted session it travels inside the record layer like every other frame. (Encoding it
+  /// with the plain codec put clear bytes into the ciphertext stream and desynchronised the peer.)
+  fn encode_data_phase_command(&mut self, msg: crate::Msg) -> Result<Bytes, ZmqError> {
+    let mut frames = FrameBatch::new();
+    frames.push(msg);
+    self.framer.write_msg_multipart(frames)
+  }
 
   /// Marks the engine closed and emits a fatal `PeerError`.
   fn fail(&mut self, out: &mut EngineOutput, err: ZmqError) {
